@@ -274,6 +274,171 @@ func (l *layered) search(c *hx.Ctx, q string) {
 	}
 }
 
+// ---- queries with spatial sub-queries ------------------------------------------------------------
+
+type qnode struct {
+	kind string // "if" | "t" | "all" | "U" | "I" | "T"
+	arg  string
+	kids []qnode
+}
+
+func (q qnode) String() string {
+	switch q.kind {
+	case "if":
+		return "if:" + q.arg
+	case "t":
+		return "t=" + q.arg
+	case "all":
+		return "all"
+	case "T":
+		return "T." + q.arg + "(" + q.kids[0].String() + ")"
+	}
+	ks := make([]string, len(q.kids))
+	for i, k := range q.kids {
+		ks[i] = k.String()
+	}
+	return q.kind + "(" + strings.Join(ks, ",") + ")"
+}
+
+func (q qnode) build() b6.Query {
+	switch q.kind {
+	case "if":
+		return b6.IntersectsFeature{ID: skelx.MustID(q.arg)}
+	case "t":
+		return b6.Tagged{Key: "#t", Value: b6.NewStringExpression(q.arg)}
+	case "all":
+		return b6.All{}
+	case "T":
+		return b6.Typed{Type: skelx.MustID(q.arg + "0").Type, Query: q.kids[0].build()}
+	case "U":
+		u := b6.Union{}
+		for _, k := range q.kids {
+			u = append(u, k.build())
+		}
+		return u
+	default:
+		i := b6.Intersection{}
+		for _, k := range q.kids {
+			i = append(i, k.build())
+		}
+		return i
+	}
+}
+
+// holds evaluates the query on the CURRENT version of a feature of the layered world w: the leaves by the
+// query's own Matches against w (an IntersectsFeature takes the named feature's geometry from w), the
+// connectives here (Typed.Matches looks at the type only).
+func (q qnode) holds(f b6.Feature, w b6.World) bool {
+	switch q.kind {
+	case "T":
+		return f.FeatureID().Type == skelx.MustID(q.arg+"0").Type && q.kids[0].holds(f, w)
+	case "U":
+		for _, k := range q.kids {
+			if k.holds(f, w) {
+				return true
+			}
+		}
+		return false
+	case "I":
+		for _, k := range q.kids {
+			if !k.holds(f, w) {
+				return false
+			}
+		}
+		return true
+	}
+	return q.build().Matches(f, w)
+}
+
+// resolved builds the query with every IntersectsFeature leaf replaced by the geometry query of the named
+// feature AS THE WORLD w SEES IT (leaf by leaf; the connectives are rebuilt here), i.e. what a layered world has
+// to hand to its layers.
+func (q qnode) resolved(w b6.World) b6.Query {
+	switch q.kind {
+	case "if":
+		return b6.ResolveFeatureQueries(b6.IntersectsFeature{ID: skelx.MustID(q.arg)}, w)
+	case "T":
+		return b6.Typed{Type: skelx.MustID(q.arg + "0").Type, Query: q.kids[0].resolved(w)}
+	case "U":
+		u := b6.Union{}
+		for _, k := range q.kids {
+			u = append(u, k.resolved(w))
+		}
+		return u
+	case "I":
+		i := b6.Intersection{}
+		for _, k := range q.kids {
+			i = append(i, k.resolved(w))
+		}
+		return i
+	}
+	return q.build()
+}
+
+func (q qnode) hasSpatial() bool {
+	if q.kind == "if" {
+		return true
+	}
+	for _, k := range q.kids {
+		if k.hasSpatial() {
+			return true
+		}
+	}
+	return false
+}
+
+func genQuery(r *hx.Rand, depth int, named []string) qnode {
+	if depth == 0 || r.Chance(1, 4) {
+		switch k := r.Intn(10); {
+		case k < 6 && len(named) > 0:
+			return qnode{kind: "if", arg: named[r.Intn(len(named))]}
+		case k < 9:
+			return qnode{kind: "t", arg: tagVals[r.Intn(len(tagVals))]}
+		default:
+			return qnode{kind: "all"}
+		}
+	}
+	switch r.Intn(5) {
+	case 0, 1:
+		return qnode{kind: "U", kids: []qnode{genQuery(r, depth-1, named), genQuery(r, depth-1, named)}}
+	case 2, 3:
+		return qnode{kind: "I", kids: []qnode{genQuery(r, depth-1, named), genQuery(r, depth-1, named)}}
+	default:
+		return qnode{kind: "T", arg: []string{"p", "w", "a", "r"}[r.Intn(4)], kids: []qnode{genQuery(r, depth-1, named)}}
+	}
+}
+
+// spatialSearch runs a query with IntersectsFeature sub-queries on the layered world; the expected match set is
+// computed by brute force over the layered world's current features (points with a single tag are not indexed).
+func (l *layered) spatialSearch(c *hx.Ctx, q qnode, note string) {
+	var matched []b6.FeatureID
+	l.w.EachFeature(func(f b6.Feature, g int) error {
+		if f.FeatureID().Type == b6.FeatureTypePoint && len(f.AllTags()) == 1 {
+			return nil
+		}
+		if q.holds(f, l.w) {
+			matched = append(matched, f.FeatureID())
+		}
+		return nil
+	}, &b6.EachFeatureOptions{Goroutines: 1})
+	skelx.SortIDs(matched)
+	// what each layer answers on its own for the query resolved in the layered world
+	rq := q.resolved(l.w)
+	baseRes := hx.List(listItems(l.base.FindFeatures(rq)))
+	ovRes := "-"
+	if l.overlay != nil {
+		ovRes = hx.List(listItems(l.overlay.FindFeatures(rq)))
+	}
+	ans := drain(l.w.FindFeatures(q.build()))
+	c.Op(fmt.Sprintf("search %s match=%s base=%s ov=%s", q.String(), skelx.RenderIDs(matched), baseRes, ovRes), ans)
+	c.Note("op:search-spatial")
+	c.Note("query:" + q.kind)
+	c.Note(note)
+	if len(matched) > 0 {
+		c.Note("search-spatial:non-empty")
+	}
+}
+
 var (
 	pointVals = []int{1, 2, 3, 4, 5, 6}
 	pathVals  = []int{10, 11, 12}
@@ -483,6 +648,38 @@ func worldCase(c *hx.Ctx, kind string) {
 			l.query(c, "loc "+id)
 		case k == 6:
 			l.query(c, "each")
+		case k < 9 && r.Chance(1, 2):
+			// a query with IntersectsFeature sub-queries: the named feature lives in the base only, in the overlay
+			// only, or in both (replaced upstairs, possibly with other geometry)
+			var named []string
+			for _, id := range ids {
+				if id[0] == 'p' || id[0] == 'w' || id[0] == 'a' {
+					named = append(named, id)
+				}
+			}
+			q := genQuery(r, 1+r.Intn(2), named)
+			for tries := 0; !q.hasSpatial() && tries < 4 && len(named) > 0; tries++ {
+				q = genQuery(r, 1+r.Intn(2), named)
+			}
+			note := "named:none"
+			var walk func(n qnode)
+			walk = func(n qnode) {
+				if n.kind == "if" {
+					switch {
+					case bg.have[n.arg] && og.have[n.arg]:
+						note = "named:both-layers"
+					case og.have[n.arg]:
+						note = "named:overlay-only"
+					case bg.have[n.arg]:
+						note = "named:base-only"
+					}
+				}
+				for _, k := range n.kids {
+					walk(k)
+				}
+			}
+			walk(q)
+			l.spatialSearch(c, q, note)
 		case k < 9:
 			if kind == "mutable" || r.Chance(2, 3) {
 				l.search(c, "t="+tagVals[r.Intn(len(tagVals))])
@@ -541,6 +738,21 @@ func corpus(c *hx.Ctx) {
 	l = &layered{kind: "overlay", base: base, overlay: ov, w: ingest.NewOverlayWorld(ov, base)}
 	c.Op("overlay base=[p1=;v=b r5=p1;v=b] ov=[r6=r5;v=o]", "base="+dump(base)+" ov="+dump(ov))
 	l.query(c, "rels p1")
+	// seeded-change witness: IntersectsFeature inside a Union must be resolved in the layered world — the named path
+	// lives in the overlay only, the point it crosses in the base only
+	base, _ = skelx.BuildBasic([]string{"p1=;v=b", "p2=;v=b", "p3=;v=b", "w10=p1,p2;v=b;t=x"}, 1)
+	ov, _ = skelx.BuildBasic([]string{"p1=;v=o", "p3=;v=o", "w11=p1,p3;v=o"}, 1)
+	l = &layered{kind: "overlay", base: base, overlay: ov, w: ingest.NewOverlayWorld(ov, base)}
+	c.Op("overlay base=[p1=;v=b p2=;v=b p3=;v=b w10=p1,p2;v=b;t=x] ov=[p1=;v=o p3=;v=o w11=p1,p3;v=o]", "base="+dump(base)+" ov="+dump(ov))
+	for _, q := range []qnode{
+		{kind: "if", arg: "w11"},
+		{kind: "U", kids: []qnode{{kind: "if", arg: "w11"}, {kind: "t", arg: "y"}}},
+		{kind: "U", kids: []qnode{{kind: "if", arg: "w10"}, {kind: "if", arg: "p3"}}},
+		{kind: "I", kids: []qnode{{kind: "if", arg: "w11"}, {kind: "T", arg: "w", kids: []qnode{{kind: "all"}}}}},
+		{kind: "T", arg: "w", kids: []qnode{{kind: "U", kids: []qnode{{kind: "if", arg: "p1"}, {kind: "t", arg: "x"}}}}},
+	} {
+		l.spatialSearch(c, q, "named:corpus")
+	}
 	// the bare iterator: equal IDs, exhausted sides, everything filtered
 	for _, m := range [][3]string{
 		{"[p1:b p2:b w1:b]", "[p2:o r1:o]", "[p2 r1]"},
